@@ -153,6 +153,41 @@ def sync_stream(rng, n, viols, stats, cases):
         app.close()
 
 
+def sync_deadlock_stream(viols, stats):
+    """a start-up synchronisation that COMPLETES after a database deadlock at one of its statements must have produced every
+    standard name (a sync that gives up loudly is C17's matter, not reported here)"""
+    from placement import deploy
+    from placement.objects import resource_class as rc_obj
+    from placement.objects import trait as trait_obj
+    from oslo_db import exception as db_exc
+    for k in range(0, 6):
+        app = impl.App(sync=False)
+        fired = []
+
+        def on_stmt(i, st, params, k=k, fired=fired):
+            if i == k and not fired:
+                fired.append(st)
+                raise db_exc.DBDeadlock()
+        impl.OBS.reset()
+        impl.OBS.on_stmt = on_stmt
+        trait_obj._TRAITS_SYNCED = False
+        rc_obj._RESOURCE_CLASSES_SYNCED = False
+        err = None
+        try:
+            deploy.update_database(app.conf)
+        except Exception as exc:      # noqa
+            err = exc
+        finally:
+            impl.OBS.on_stmt = None
+        stats['evaluations'] += 1
+        stats['distinct'].add(('sync-deadlock', k, err is None))
+        if err is None:
+            for msg in names_oracle(app.raw_dump())[:3]:
+                viols.append(({'kind': 'sync-deadlock', 'statement': k, 'sql': str(fired[0])[:80] if fired else None},
+                              'start-up sync completed after a deadlock at statement %d, yet: %s' % (k, msg)))
+        app.close()
+
+
 def coq_sync_cases(cases, workdir):
     os.makedirs(workdir, exist_ok=True)
     path = os.path.join(workdir, 'sync_cases.v')
@@ -248,6 +283,7 @@ def run(pid, tier, out):
     malformed_stream(viols, stats)
     # 3. start-up synchronisation
     sync_stream(rng, 9 if tier == 'quick' else 60, viols, stats, sync_cases)
+    sync_deadlock_stream(viols, stats)
     sync_bad = []
     if model_ok:
         try:
